@@ -25,7 +25,7 @@ LEVEL_TEXT = ("Scenarios restricted to the v1 vocabulary (discrete/continuous re
               "be identical. Runs with the grid section omitted / optional sections omitted must equal the explicit ones.")
 LEVEL_NOTE = "The TOML text is produced by the harness's own writer and read by ladim through tomli; with diffusion > 0 the tracker's rng is re-seeded identically by the harness in every run so that outputs are comparable exactly."
 RULE = ("case = scenario spec; renderings yaml2, toml2, yaml1 (+ grid-omitted, sections-omitted variants). Non-trivial: several release times or continuous release and moving water; distinct by spec.")
-MANDATORY = ["v1_discrete_with_release_frequency", "configure_dicts_compared", "plugin_gridforce", "version_key_omitted", "yaml2_vs_toml2", "yaml2_vs_yaml1", "grid_omitted_pairs", "wildcard_forcing", "optional_sections_omitted_pairs", "continuous", "discrete", "subgrid", "diffusion_seeded",
+MANDATORY = ["v1_file_names_in_files_section", "v1_discrete_with_release_frequency", "configure_dicts_compared", "plugin_gridforce", "version_key_omitted", "yaml2_vs_toml2", "yaml2_vs_yaml1", "grid_omitted_pairs", "wildcard_forcing", "optional_sections_omitted_pairs", "continuous", "discrete", "subgrid", "diffusion_seeded",
              "particle_variable_column", "values_compared"]
 ASSUMPTIONS = ["only what the v1 vocabulary can express"]
 MIN_CASES_PER_PROCESS = 4  # several runs share one interpreter: state leaking between runs (module caches, shared defaults) becomes observable
@@ -145,7 +145,8 @@ def renderings(sp: dict[str, Any], wd: Path, w, rls: Path, names: list[str]) -> 
     v2["time"] = dict(start=start, stop=stop, dt=dt)
     if sp["reference"]:
         v2["time"]["reference"] = sp["reference"]
-    v2["grid"] = dict(module=gfmod, filename=str(w["files"][0]))
+    gridfile = str(w["gridfile"]) if sp["seed"] % 3 == 0 else str(w["files"][0])  # a grid file of its own, or the first forcing file
+    v2["grid"] = dict(module=gfmod, filename=gridfile)
     if sp["subgrid"]:
         v2["grid"]["subgrid"] = sp["subgrid"]
     v2["forcing"] = dict(module=gfmod, filename=forcing_file)
@@ -166,7 +167,7 @@ def renderings(sp: dict[str, Any], wd: Path, w, rls: Path, names: list[str]) -> 
     v1: dict[str, Any] = dict(
         time_control=dict(start_time=start, stop_time=stop),
         files=dict(particle_release_file=str(rls), output_file=out("yaml1")),
-        gridforce=dict(module=gfmod if sp["plugin_gridforce"] else "ladim1.gridforce.ROMS", input_file=forcing_file, gridfile=str(w["files"][0])),
+        gridforce=dict(module=gfmod if sp["plugin_gridforce"] else "ladim1.gridforce.ROMS", input_file=forcing_file, gridfile=gridfile),
         numerics=dict(dt=dt, advection=sp["advection"], diffusion=sp["diffusion"]),
         particle_release=dict(variables=names, particle_variables=pvars, release_time="time"),
         output_variables=dict(outper=outper_v, format="NETCDF4", instance=ivars, particle=pvars),
@@ -186,6 +187,10 @@ def renderings(sp: dict[str, Any], wd: Path, w, rls: Path, names: list[str]) -> 
         v1["ibm"] = dict(ibm_module=C.REC_IBM, variables=["age"], age=True, log=False)
     for k in ivars + pvars:
         v1["output_variables"][k] = dict(ncformat=nct[k], **attrs[k])
+    if sp["seed"] % 3 == 0:
+        # legacy layout: input_file and gridfile live in the `files` section (not in gridforce)
+        v1["files"]["input_file"] = v1["gridforce"].pop("input_file")
+        v1["files"]["gridfile"] = v1["gridforce"].pop("gridfile")
     if sp["version_key"]:
         v1 = dict(version=1, **v1)
     return dict(yaml2=v2, yaml1=v1)
@@ -330,10 +335,14 @@ def run_case(case: dict[str, Any], wd: Path) -> dict[str, Any]:
             sit["configure_dicts_compared"] = sit.get("configure_dicts_compared", 0) + 1
             if not isinstance(confs[other], dict):
                 continue  # reported through the failed run
-            diff = {k: (ref_conf[k], confs[other][k]) for k in ref_conf if ref_conf[k] != confs[other][k]}
+            want = dict(ref_conf)
+            if other == "nogrid":  # an omitted grid section means: forcing module + first forcing file
+                want["grid_file"] = str(Path(str(w["files"][0])).resolve())
+            diff = {k: (want[k], confs[other][k]) for k in want if want[k] != confs[other][k]}
             if diff:
                 V.append(C.viol(f"configure() of the {other} spelling describes a different simulation than the YAML v2 spelling: {str(diff)[:500]}", **desc))
     sit["plugin_gridforce"] = int(sp["plugin_gridforce"])
+    sit["v1_file_names_in_files_section"] = int(sp["seed"] % 3 == 0)
     sit["v1_discrete_with_release_frequency"] = int(not sp["cont"] and sp["seed"] % 2 == 1)
     sit["version_key_omitted"] = int(not sp["version_key"])
     base = outs.get("yaml2")
